@@ -341,6 +341,27 @@ class Path:
                 return True
         return False
 
+    def atoms(self):
+        """[(canonical text, polarity, node)] of the atomic facts the path's conditions imply: conjuncts of a test assumed true,
+        disjuncts of a test assumed false (with `not` pushed through)"""
+        out = []
+
+        def add(e, pol):
+            if isinstance(e, ast.UnaryOp) and isinstance(e.op, ast.Not):
+                add(e.operand, not pol)
+            elif isinstance(e, ast.BoolOp) and isinstance(e.op, ast.And) and pol:
+                for v in e.values:
+                    add(v, True)
+            elif isinstance(e, ast.BoolOp) and isinstance(e.op, ast.Or) and not pol:
+                for v in e.values:
+                    add(v, False)
+            else:
+                out.append((N(e), pol, e))
+        for c, pol in self.conds:
+            if isinstance(c, ast.AST):
+                add(c, pol)
+        return out
+
     def cond_texts(self):
         return [('' if pol else 'not ') + (N(c) if isinstance(c, ast.AST) else str(c)) for c, pol in self.conds]
 
